@@ -18,3 +18,4 @@ def run(ctx):
     ctx.assumptions = _writer.ASSUME
     _writer.model(ctx)
     _writer.drive_and_validate(ctx, ["plain", "fault", "hold", "bam"], selftest_on="fault")
+    _writer.iconformance(ctx)
